@@ -7,6 +7,7 @@
  * EXPECT-FAIL: TAB5a parse_string
  * EXPECT-FAIL: TAB6 utf16_literal_to_utf8
  * EXPECT-FAIL: TAB7 parse_number
+ * EXPECT-FAIL: TAB21 parse_hex4
  * EXPECT-FAIL: C02S parse_array
  * EXPECT-FAIL: C03S parse_array
  * EXPECT-FAIL: C02S parse_object
@@ -43,7 +44,21 @@ static cJSON_bool parse_number(cJSON * const item, parse_buffer * const input_bu
     input_buffer->offset += (size_t)(after_end - number_c_string);
     return true;
 }
-static unsigned parse_hex4(const unsigned char * const input) { return input[0]; }
+/* TAB21: case folding with | 0x20 also maps 0x10..0x19 onto the digits */
+static unsigned parse_hex4(const unsigned char * const input)
+{
+    unsigned int h = 0;
+    size_t i = 0;
+    for (i = 0; i < 4; i++)
+    {
+        unsigned char digit = (unsigned char)(input[i] | 0x20);
+        h = h << 4;
+        if ((digit >= '0') && (digit <= '9')) { h += (unsigned int) digit - '0'; }
+        else if ((digit >= 'a') && (digit <= 'f')) { h += (unsigned int) 10 + digit - 'a'; }
+        else { return 0; }
+    }
+    return h;
+}
 /* TAB6: high-surrogate upper bound wrong, combine constant wrong */
 static unsigned char utf16_literal_to_utf8(const unsigned char * const input_pointer, const unsigned char * const input_end, unsigned char **output_pointer)
 {
